@@ -61,6 +61,12 @@ def chunk_parent(genome, cs, ce, name="chr1", alphabet="NT_EXTENDED_GAPPED", str
     return seq_chunk_to_parent(genome[cs:ce], name, cs, ce, alphabet=Alphabet[alphabet])
 
 
+def _guid_kw(spec):
+    """an identifier issued by the caller (a database key) instead of the content digest: spec key "guid" (UUID text)"""
+    import uuid
+    return {"guid": uuid.UUID(spec["guid"])} if spec.get("guid") else {}
+
+
 def mkcds(spec, parent=None, **kw):
     bl = spec["blocks"]
     return CDSInterval(
@@ -86,6 +92,7 @@ def mktx(spec, parent=None, sequence_name="chr1", **kw):
         transcript_type=Biotype[spec["transcript_type"]] if spec.get("transcript_type") else None,
         sequence_name=spec.get("sequence_name", sequence_name), protein_id=spec.get("protein_id"), product=spec.get("product"),
         parent_or_seq_chunk_parent=parent)
+    args.update(_guid_kw(spec))
     args.update(kw)
     return TranscriptInterval(**args)
 
@@ -97,6 +104,7 @@ def mkfeat(spec, parent=None, sequence_name="chr1", **kw):
         qualifiers=spec.get("qualifiers") or None, sequence_name=spec.get("sequence_name", sequence_name),
         feature_types=spec.get("feature_types"), feature_name=spec.get("feature_name"), feature_id=spec.get("feature_id"),
         is_primary_feature=spec.get("is_primary_feature"), parent_or_seq_chunk_parent=parent)
+    args.update(_guid_kw(spec))
     args.update(kw)
     return FeatureInterval(**args)
 from inscripta.biocantor.gene.gene import GeneInterval  # noqa: E402
@@ -110,6 +118,7 @@ def mkgene(spec, parent=None, sequence_name="chr1", **kw):
     args = dict(transcripts=txs, gene_id=spec.get("gene_id"), gene_symbol=spec.get("gene_symbol"),
                 gene_type=Biotype[spec["gene_type"]] if spec.get("gene_type") else None, locus_tag=spec.get("locus_tag"),
                 qualifiers=spec.get("qualifiers") or None, sequence_name=sequence_name, parent_or_seq_chunk_parent=parent)
+    args.update(_guid_kw(spec))
     args.update(kw)
     return GeneInterval(**args)
 
@@ -120,6 +129,7 @@ def mkfc(spec, parent=None, sequence_name="chr1", **kw):
                 feature_collection_id=spec.get("feature_collection_id"), feature_collection_type=spec.get("feature_collection_type"),
                 locus_tag=spec.get("locus_tag"), qualifiers=spec.get("qualifiers") or None, sequence_name=sequence_name,
                 parent_or_seq_chunk_parent=parent)
+    args.update(_guid_kw(spec))
     args.update(kw)
     return FeatureIntervalCollection(**args)
 
@@ -127,7 +137,7 @@ def mkfc(spec, parent=None, sequence_name="chr1", **kw):
 def mkvar(v, parent=None):
     return VariantInterval(v["start"], v["end"], v["sequence"], v["variant_type"], phase_block=v.get("phase_block"),
                            variant_name=v.get("variant_name"), variant_id=v.get("variant_id"), qualifiers=v.get("qualifiers") or None,
-                           parent_or_seq_chunk_parent=parent)
+                           parent_or_seq_chunk_parent=parent, **_guid_kw(v))
 
 
 def mkvc(spec, parent=None, sequence_name="chr1", preused=None, other_parent=None):
@@ -153,7 +163,7 @@ def mkvc(spec, parent=None, sequence_name="chr1", preused=None, other_parent=Non
         kids = [mkvar(v, parent) for v in spec["variants"]]
     return VariantIntervalCollection(kids, variant_collection_name=spec.get("variant_collection_name"),
                                      variant_collection_id=spec.get("variant_collection_id"), sequence_name=sequence_name,
-                                     qualifiers=spec.get("qualifiers") or None, parent_or_seq_chunk_parent=parent)
+                                     qualifiers=spec.get("qualifiers") or None, parent_or_seq_chunk_parent=parent, **_guid_kw(spec))
 
 
 def mkcollection(spec, parent=None, sequence_name="chr1"):
